@@ -22,7 +22,8 @@ theorem source_facts :
     delPathComparesWith = ["common.AllBalMinVal()"] ∧
     addPathReadsInForce = true ∧ delPathReadsInForce = true ∧ walletReadsCfgMinValue = [] ∧
     useMapCntWriters = ["InitMaps", "LoadBalances"] ∧
-    useMapCntSources = ["int(common.Get(&common.CFG.AllBalances.UseMapCnt))"] := by
+    useMapCntSources = ["int(common.Get(&common.CFG.AllBalances.UseMapCnt))"] ∧
+    callbackPathSortedSearches = [] := by
   decide
 
 /-- Reset leaves the minimum in force alone (by the generated fact `resetMayWriteMinVal = false`) -/
